@@ -94,7 +94,7 @@ def run_history(args):
     proj.sync_tree(root, files, opts)
     first = observe(root, "build", cache_home)
     steps.append({"edits": ["(initial)"], "cmd": "build", "warm": first, "clean": None})
-    key_toml = proj.toml(opts)       # Veryl.toml text the on-disk manifest's global key belongs to
+    key_toml = proj.effective_build(opts)       # [build] section the on-disk manifest's global key belongs to
     for s in range(nsteps):
         names = []
         for _ in range(rng.choice([1, 1, 2])):
@@ -126,11 +126,11 @@ def run_history(args):
                         with open(pth, "wb") as fh:
                             fh.write(data.replace(root.encode(), clean_root.encode()))
                         os.utime(pth, ns=(st_.st_atime_ns, st_.st_mtime_ns))
-        req, nsrc = predict_request(root, cmd, key_toml == proj.toml(opts))
+        req, nsrc = predict_request(root, cmd, key_toml == proj.effective_build(opts))
         stamp = manifest_stamp(root)
         warm = observe(root, cmd, cache_home)
         if manifest_stamp(root) != stamp:
-            key_toml = proj.toml(opts)
+            key_toml = proj.effective_build(opts)
         clean = observe(clean_root, cmd, cache_home)
         steps.append({"edits": names, "cmd": cmd, "warm": warm, "clean": clean, "model_req": req, "nsrc": nsrc,
                       "files": dict(files), "opts": json.loads(json.dumps(opts))})
